@@ -1,4 +1,5 @@
 import DuneVerif.Proofs.C07Ext
+import DuneVerif.Proofs.C07Reg
 import DuneVerif.Gen.C07
 /-!
 # C07 — property theorems (statements only; the lemmas live in `Proofs/C07.lean`)
@@ -383,6 +384,58 @@ theorem op_table_sound :
 `inout[i] = func(in[i], inout[i])` — the operand order MPI prescribes (`in` holds the lower ranks' partial result). -/
 theorem user_op_registration :
     Gen.userOpCommute = false ∧ Gen.userOpArgs = ["in", "inout"] ∧ Gen.userOpTarget = "inout" := by decide
+
+/-! ### R3: the lazily created singletons (`MPI_Op` per `Generic_MPI_Op<Type,BinaryFunction>`, `MPI_Datatype` per
+`MPITraits<…>`) — what a call returns does not depend on the calls before it -/
+
+/-- **singleton_history_independent.**  For any table of class templates in which every template parameter that the
+creating code depends on also selects the storage of the handle: after *any* history of `get()`/`getType()` calls of
+any instantiations (from the empty state of a fresh process), every call obtains a handle whose creator agrees with the
+caller on all parameters the creation depends on — i.e. the handle its own `create()` would have built. -/
+theorem singleton_history_independent (tbl : List Reg.Row) (hsub : ∀ r ∈ tbl, ∀ p ∈ r.used, p ∈ r.slot)
+    (hist : List Reg.Use) (u : Reg.Use) :
+    Reg.faithful tbl u (Reg.get tbl (Reg.run tbl [] hist) u).1 = true :=
+  Proofs.get_faithful tbl hsub _ u (Proofs.run_inv tbl hist [] (Proofs.inv_nil tbl))
+
+/-- … and the cells of the static storage are only ever filled by an instantiation that selects that cell. -/
+theorem singleton_storage_invariant (tbl : List Reg.Row) (hist : List Reg.Use) :
+    ∀ e ∈ Reg.run tbl [] hist, ∃ r, Reg.rowOf tbl e.1.1 = some r ∧ e.1.2 = Reg.proj r.slot e.2 :=
+  Proofs.run_inv tbl hist [] (Proofs.inv_nil tbl)
+
+/-- **singleton_table_sound.**  In the current sources (`Gen.singletonTable`, extracted by `tr_c07.py`) the seven class
+templates that create a handle lazily are the ones the model knows, and in each of them every template parameter the
+creation depends on selects the storage (`Type` and `BinaryFunction` for the user-op singleton; all arguments of
+`FieldVector<K,n>`, `bigunsignedint<k>`, `std::pair<T1,T2>`, `ParallelLocalIndex<T>`, `IndexPair<TG,…<TA>>`, and `T`
+for the byte-wise fallback). -/
+theorem singleton_table_sound :
+    (∀ r ∈ Gen.singletonTable, ∀ p ∈ r.used, p ∈ r.slot) ∧
+    Gen.singletonTable.map (·.family) =
+      ["Generic_MPI_Op<$1,$2,$3>", "MPITraits<$1>", "MPITraits<FieldVector<$1,$2>>", "MPITraits<bigunsignedint<$1>>",
+       "MPITraits<std::pair<$1,$2>>", "MPITraits<ParallelLocalIndex<$1>>",
+       "MPITraits<IndexPair<$1,ParallelLocalIndex<$2>>>"] ∧
+    (∀ r ∈ Gen.singletonTable, r.used ≠ []) := by decide
+
+/-- **user_op_per_type_and_functor.**  Hence, in the current sources, a reduction with element type `ty` and functor
+`fn` — whatever reductions, transfers and packs with whatever element types and functors the process performed before,
+step by step — runs the callback instantiated for this very `(Type, BinaryFunction)` and uses the datatype built for
+this very type: no step of any history is served a foreign handle. -/
+theorem user_op_per_type_and_functor (steps : List (List Reg.Use)) :
+    ∀ b ∈ Reg.runSteps Gen.singletonTable [] steps, b = true :=
+  Proofs.runSteps_all Gen.singletonTable singleton_table_sound.1 steps [] (Proofs.inv_nil _)
+
+-- a generic functor (`std::plus<>`) first used with `long`, then with `double`, and `FieldVector<int,2>` after
+-- `FieldVector<int,3>`: every step gets its own handles
+example : Reg.runSteps Gen.singletonTable []
+    [opUses "long" "gsum", tyUses "fv3" ++ opUses "fv3" "gsum", opUses "double" "gsum", tyUses "fv2"] = [true, true, true, true] := by
+  decide
+-- non-vacuity of the hypothesis: a table whose user-op storage is selected by the functor alone (what the seeded change
+-- C07_w2m1 does) serves `double` the handle created for `long` …
+example : Reg.runSteps [⟨"Generic_MPI_Op<$1,$2,$3>", ["2"], ["1", "2"]⟩] []
+    [opUses "long" "gsum", opUses "double" "gsum", opUses "double" "sum", opUses "long" "gsum"] = [true, false, true, true] := by
+  decide
+-- … and a datatype stored per `K` of `FieldVector<K,n>` serves `FieldVector<int,2>` the type built for `FieldVector<int,3>`
+example : Reg.runSteps [⟨"MPITraits<FieldVector<$1,$2>>", ["1"], ["1", "2"]⟩] [] [tyUses "fv3", tyUses "fv2"] = [true, false] := by
+  decide
 
 /-! ## (i) collectives -/
 
